@@ -264,13 +264,26 @@ def whole_runs(chk):
     files = {'Probe.sol': probe, 'sub/Probe.sol': '\n' + probe, 'sub/deep/Other.sol': dl.file_text(['solidity_math', 'sstore', 'divide_before_multiply', 'constructor_order'], 3),
              'Many.sol': 'pragma solidity ^0.8.16;\ncontract M {\n%s}\n' % ''.join(
                  '    function f%d(\n        uint256[] memory a%d,\n        string memory b%d,\n        bytes memory c%d\n    ) external { a%d; }\n' % ((i,) * 5) for i in range(6))}
+    # the probe with one token per line: nested constructs begin on lines of their own, so whatever a detector does with the ORDER of its
+    # hash containers shows in the reported lines
+    spread, in_str = [], False
+    for ln in probe.split('\n'):
+        if ln.startswith('pragma'):
+            spread.append(ln); continue
+        out_ln = []
+        for ch in ln:
+            if ch == '"':
+                in_str = not in_str
+            out_ln.append('\n' if ch == ' ' and not in_str and out_ln and out_ln[-1] not in ' \n' else ch)
+        spread.append(''.join(out_ln))
+    files['Spread.sol'] = '\n'.join(spread)
     # entries that are not analysed are part of the directory content too: wherever the listing puts them, the report is the same
     files.update({'Probe.t.sol': probe, 'README.md': '# readme\n', 'sub/abi.json': '{}\n', 'sub/Setup.t.sol': dl.file_text(['sstore', 'floating_pragma'], 1),
                   'sub/deep/.gitkeep': ''})
     for rel, text in files.items():
         open(os.path.join(root, 'proj', rel), 'w').write(text)
     binary = os.path.join(chk.world.build, 'solstat')
-    n = 8 if chk.quick else 40
+    n = 12 if chk.quick else 40
     seen = {}
     for i in range(n):
         cwd = os.path.join(root, 'cwd%d' % (i % 2))
